@@ -14,6 +14,8 @@ Lemma qeqb_spec x y : reflect (x = y) (qeqb x y).
 Proof. unfold qeqb, Qccompare. destruct (cmpT (this x) (this y)); constructor.
   - now apply Qc_is_canon. - intros ->; lra. - intros ->; lra. Qed.
 
+Lemma eq_Q (a b : Qc) : a = b -> (this a == this b)%Q.
+Proof. intros ->. reflexivity. Qed.
 Lemma neq_Q (a b : Qc) : a <> b -> ~ (this a == this b)%Q.
 Proof. intros H E. apply H, Qc_is_canon, E. Qed.
 
@@ -42,7 +44,7 @@ Ltac brk_in H :=
 Ltac qc :=
   unfold Qcle, Qclt in *;
   repeat match goal with
-  | H : @eq Qc ?a ?b |- _ => apply (f_equal this) in H
+  | H : @eq Qc ?a ?b |- _ => apply eq_Q in H
   | H : ?a <> ?b :> Qc |- _ => apply neq_Q in H
   end;
   change (this 0%Qc) with 0%Q in *; change (this 1%Qc) with 1%Q in *;
@@ -52,7 +54,7 @@ Ltac qc :=
 Ltac qc_arith :=
   unfold Qcle, Qclt in *;
   repeat match goal with
-  | H : @eq Qc ?a ?b |- _ => apply (f_equal this) in H
+  | H : @eq Qc ?a ?b |- _ => apply eq_Q in H
   | H : ?a <> ?b :> Qc |- _ => apply neq_Q in H
   | |- @eq Qc ?a ?b => apply Qc_is_canon
   end;
